@@ -3,6 +3,8 @@
 
 #include "manif/constants.h"
 
+#include <cmath>
+
 namespace manif {
 
 /**
@@ -52,6 +54,51 @@ constexpr T approxSqrtInv(const T x)
   return (T(15) / T(8)) - (T(5) / T(4)) * x + (T(3) / T(8)) * x * x;
 }
 
+namespace internal {
+
+/**
+ * @brief Compute (1 - cos(theta)) / theta^2 without cancellation.
+ * @param[in] theta The angle, must not be zero.
+ * @param[in] theta_sq The squared angle.
+ * @note A series expansion is used for small angles, the
+ * half-angle identity 1-cos(x) = 2 sin^2(x/2) otherwise.
+ */
+template <typename T>
+T oneMinusCosByThetaSq(const T& theta, const T& theta_sq)
+{
+  using std::sin;
+
+  if (theta_sq < T(1e-2))
+  {
+    return T(1./2.) - theta_sq * (T(1./24.) - theta_sq * (T(1./720.) -
+           theta_sq * (T(1./40320.) - theta_sq * T(1./3628800.))));
+  }
+
+  const T sin_half_theta = sin(theta / T(2));
+  return T(2) * sin_half_theta * sin_half_theta / theta_sq;
+}
+
+/**
+ * @brief Compute (theta - sin(theta)) / theta^3 without cancellation.
+ * @param[in] theta The angle, must not be zero.
+ * @param[in] theta_sq The squared angle.
+ * @note A series expansion is used for small angles.
+ */
+template <typename T>
+T thetaMinusSinByThetaCu(const T& theta, const T& theta_sq)
+{
+  using std::sin;
+
+  if (theta_sq < T(1e-2))
+  {
+    return T(1./6.) - theta_sq * (T(1./120.) - theta_sq * (T(1./5040.) -
+           theta_sq * (T(1./362880.) - theta_sq * T(1./39916800.))));
+  }
+
+  return (theta - sin(theta)) / (theta_sq * theta);
+}
+
+} /* namespace internal */
 } /* namespace manif */
 
 #endif /* _MANIF_MANIF_UTILS_H_ */
